@@ -6,5 +6,11 @@ Inductive path_form :=
 | AsPassedAbsolute   (* pinned tree: file_line_patterns(filename, ...) -- only the path as passed (target-prefixed) *)
 | Both.              (* fix 18b42d9: the path as passed, then the target-relative path *)
 
+(** base_visitor.UtilsMixin.filter_by_path_includes_or_excludes (and its copy in remove_unused_imports.py):
+    how the exclusion and inclusion line lists combine. *)
+Inductive lf_rule :=
+| ExcludeShadowsInclude   (* `if self.line_exclude: return not any(...)`: a non-empty exclusion list makes the inclusion list irrelevant *)
+| ExcludeThenInclude.     (* an excluded line is never selected; when lines are included, only those are *)
+
 (** A fragment whose source text is exactly the one the model was written from. *)
 Inductive as_written := AsWritten.
